@@ -441,7 +441,7 @@ func (fr *Frame) anchorAsserts(kind, what string, pos token.Pos, bind map[string
 		if f[0] != kind {
 			continue
 		}
-		if len(f) == 2 && !strings.Contains(what, f[1]) {
+		if len(f) == 2 && !strings.Contains(what, f[1]) && !fr.anchorIsLocalChan(kind, f[1], bind) {
 			continue
 		}
 		for i, c := range fc.Asserts[a] {
@@ -644,6 +644,28 @@ func (fr *Frame) initGhostVars() {
 }
 
 // ghostAfter applies the `after <anchor>: v = e` updates of the function's contract.
+// anchorIsLocalChan: a send/recv anchor may name the channel by the local variable that holds it.
+func (fr *Frame) anchorIsLocalChan(kind, name string, bind map[string]*Val) bool {
+	if kind != "send" && kind != "recv" {
+		return false
+	}
+	ch := bind["ch"]
+	if ch == nil || !isIdent(name) {
+		return false
+	}
+	v := fr.localByName(name, fr.st)
+	return v != nil && v.T == ch.T
+}
+
+func isIdent(s string) bool {
+	for i, r := range s {
+		if !(r == '_' || r >= 'a' && r <= 'z' || r >= 'A' && r <= 'Z' || i > 0 && r >= '0' && r <= '9') {
+			return false
+		}
+	}
+	return s != ""
+}
+
 func (fr *Frame) ghostAfter(kind, what string, bind map[string]*Val) {
 	fc := fr.contr
 	if fc == nil {
@@ -657,7 +679,7 @@ func (fr *Frame) ghostAfter(kind, what string, bind map[string]*Val) {
 		if f[0] != kind {
 			continue
 		}
-		if len(f) == 2 && !strings.Contains(what, f[1]) {
+		if len(f) == 2 && !strings.Contains(what, f[1]) && !fr.anchorIsLocalChan(kind, f[1], bind) {
 			continue
 		}
 		g := fr.ghostVarDecl(u.Var)
